@@ -5,7 +5,8 @@
 //! live scope, else global, else nobody) and a model of the *save-and-restore implementation*; a
 //! dispatch that differs from the specification but matches the implementation model after a
 //! non-LIFO guard drop or a `mem::forget` is attributed to those (known findings), anything else
-//! is a new violation.
+//! is a new violation. A quarter of the plans end with a thread-teardown episode on a plain OS
+//! thread (an application thread-local whose destructor emits; see `teardown_episode`).
 
 use crate::doubles::{new_log, Ev, LogRecorder, Shared};
 use crate::framework::*;
@@ -769,7 +770,7 @@ impl Scenario for C01Scopes {
         out
     }
     fn real_components(&self) -> Vec<&'static str> {
-        vec!["metrics::{with_local_recorder, set_default_local_recorder, LocalRecorderGuard, with_recorder}", "counter!/gauge!/histogram!/describe_*! (23 call sites covering every key_var!/metadata_var!/describe! arm)", "set_global_recorder + GLOBAL_RECORDER cell (real install by the program's InstallGlobal step, possibly racing; try_load on every unscoped emission)"]
+        vec!["metrics::{with_local_recorder, set_default_local_recorder, LocalRecorderGuard, with_recorder}", "counter!/gauge!/histogram!/describe_*! (23 call sites covering every key_var!/metadata_var!/describe! arm)", "set_global_recorder + GLOBAL_RECORDER cell (real install by the program's InstallGlobal step, possibly racing; try_load on every unscoped emission)", "thread teardown: a real OS thread whose application thread-local emits from its destructor, before / after the facade's own thread-local was first touched (real std TLS destructor order)"]
     }
     fn stub_components(&self) -> Vec<&'static str> {
         vec!["thread scheduler (dsim)", "recorder doubles (owned by the harness beyond their logical scope so that a dispatch to an ended scope is observed instead of being undefined behaviour)", "the process-wide global cell is put back to 'uninstalled' between runs through the guarded hook __verif_reset_global_recorder (a real process can install only once)"]
